@@ -140,3 +140,59 @@ def u_auto(ip):
     c.oblige("log_prior_is_transformed_density", to_sort(ip.getattr(model, "log_prior"), Real) == prior)
     c.oblige("log_lik", to_sort(ip.getattr(model, "log_lik"), Real) == lik)
     c.oblige("log_prob_is_sum", to_sort(ip.getattr(model, "log_prob"), Real) == lik + prior)
+
+
+@unit("C02.distreg_builder", "C02", ["liesel/model/distreg.py::DistRegBuilder.add_response", "liesel/model/distreg.py::DistRegBuilder.add_predictor",
+                                     "liesel/model/distreg.py::DistRegBuilder.add_p_smooth", "liesel/model/distreg.py::DistRegBuilder.add_np_smooth",
+                                     "liesel/model/distreg.py::DistRegBuilder._smooth_name", "liesel/model/legacy.py::Smooth", "liesel/model/legacy.py::Predictor", f"{M}::GraphBuilder.build_model"],
+      assumptions=["one response, predictors loc (identity link) and scale (exp link), one parametric and one non-parametric smooth on loc, one parametric smooth on scale; all arrays / "
+                   "densities opaque", "np.linalg.matrix_rank, np.zeros, np.shape uninterpreted"])
+def u_distreg(ip):
+    """in a DistRegBuilder model every variable with a distribution is flagged as exactly one of observed (the response) or parameter
+    (regression coefficients, smoothing variance); design matrices and hyperparameters carry no distribution; hence
+    log_prob = log_lik + log_prior, and each total is the sum of the corresponding log-densities."""
+    c = ip.ctx
+    install_graph_models(ip)
+    from contracts.graph import dist_fn, bijector_class, install_tfp_models
+    install_tfp_models(ip)
+    ip.models["collections.defaultdict"] = lambda ip_, factory=None: DefaultDict(ip_, factory)
+    ip.models["numpy.zeros"] = lambda ip_, shape, dtype=None: ip_.uf("zeros", ip_.to_U(shape))
+    ip.models["numpy.shape"] = lambda ip_, x: (ip_.uf("dim0", ip_.to_U(x), sort=Int), ip_.uf("dim1", ip_.to_U(x), sort=Int))
+    ip.models["numpy.linalg.matrix_rank"] = lambda ip_, K: ip_.uf("matrix_rank", ip_.to_U(K))
+    ip.models["opaque_binop"] = lambda ip_, op, a, b: ip_.uf("op_" + op, ip_.to_U(a), ip_.to_U(b))
+    for nm in ("Normal", "InverseGamma"):
+        ip.models[f"tensorflow_probability.substrates.jax.distributions.{nm}"] = (lambda fam: lambda ip_, *a, **k: ip_.call(dist_fn(fam), list(a), k))(nm)
+    MVN = ip.repo("liesel/distributions/mvn_degen.py::MultivariateNormalDegenerate")
+    ip.summaries["liesel/distributions/mvn_degen.py::MultivariateNormalDegenerate.from_penalty"] = lambda ip_, args, kwargs: ip_.call(dist_fn("MVNDegen"), [], {k: v for k, v in kwargs.items()})
+    B = ip.repo("liesel/model/distreg.py::DistRegBuilder")
+    b = ip.call(B, [], {})
+    ip.call(method(ip, b, "add_response"), [z3.Const("y_data", U), dist_fn("Resp")], {})
+    ip.call(method(ip, b, "add_predictor"), ["loc", bijector_class(ip, "Identity")], {})
+    ip.call(method(ip, b, "add_predictor"), ["scale", bijector_class(ip, "Exp")], {})
+    ip.call(method(ip, b, "add_p_smooth"), [z3.Const("X1", U), 0.0, 10.0, "loc"], {})
+    ip.call(method(ip, b, "add_np_smooth"), [z3.Const("X2", U), z3.Const("K2", U), 1.0, 0.5, "loc"], {})
+    ip.call(method(ip, b, "add_p_smooth"), [z3.Const("X3", U), 0.0, 3.0, "scale"], {})
+    model = ip.call(method(ip, b, "build_model"), [], {})
+    V = model.f["_vars"]
+    with_dist = {n: v for n, v in V.items() if ip.getattr(v, "has_dist")}
+    c.oblige("distributed_variables", sorted(with_dist) == sorted(["response", "loc_p0_beta", "loc_np0_beta", "loc_np0_tau2", "scale_p0_beta"]))
+    c.oblige("exactly_one_flag_each", all(ip.getattr(v, "observed") != ip.getattr(v, "parameter") for v in with_dist.values()))
+    c.oblige("response_observed_coefficients_parameters", ip.getattr(V["response"], "observed") is True and all(ip.getattr(V[n], "parameter") is True for n in with_dist if n != "response"))
+    prob, lik, prior = [to_sort(ip.getattr(model, a), Real) for a in ("log_prob", "log_lik", "log_prior")]
+    c.oblige("decomposition", prob == lik + prior)
+    parts = {n: to_sort(ip.getattr(v, "log_prob") if not (is_z3(ip.getattr(v, "log_prob")) and ip.getattr(v, "log_prob").sort() == U) else TOTAL(ip.getattr(v, "log_prob")), Real) for n, v in with_dist.items()}
+    c.oblige("log_lik_is_response_density", lik == parts["response"])
+    c.oblige("log_prior_is_sum_of_parameter_densities", prior == sum(p for n, p in parts.items() if n != "response"))
+
+
+class DefaultDict(dict):
+    """collections.defaultdict with a factory called through the interpreter"""
+
+    def __init__(self, ip, factory):
+        super().__init__()
+        self._ip, self._factory = ip, factory
+
+    def __missing__(self, key):
+        v = self._ip.call(self._factory, [], {})
+        self[key] = v
+        return v
